@@ -32,3 +32,9 @@ chk("C14", "exploration", "differential decoding monitor: SQLite-written payload
 chk("C15", "exploration", "exhaustive single-byte header mutation monitor over the pager hook + re-read under an open handle + real WAL / UTF-16 / legacy-format files",
     "Every header byte x every value on a valid base of 3 (quick) / 8 (thorough) page sizes, classified must-refuse / must-accept-with-same-rows / either; header swapped under an open handle between two transactions; real SQLite-written WAL, UTF-16 and schema-format 1-4 files. Exhaustive over single-byte mutations, not over multi-byte combinations.",
     "classification table follows the property text; in-memory pager stands in for the file for the byte sweep", "DESIGN.md 3 C15")
+chk("C16", "exploration", "runtime monitor on sql.Parse: panic/determinism over generated, mutated and soup strings (sequential, after unrelated statements, concurrent) + metamorphic element-locality oracle on SQLite-validated statements; coverage-guided fuzzing in thorough tier",
+    "Tens of thousands (quick) / ~1M (thorough) strings and every column definition / table constraint / indexed column of thousands of SQLite-accepted statements and their SQLite-accepted single-element edits compared with the element parsed alone. 'All strings' is sampled, not enumerated.",
+    "SQLite decides which statements are valid; isolation parse is the locality reference; hang detection is a wall-clock watchdog confirmed alone", "DESIGN.md 3 C16")
+chk("C10", "exploration", "differential schema monitor: grammar-generated DDL executed by SQLite, Database.Schema/DB.Columns vs PRAGMA table_xinfo/index_list/index_xinfo by index name, plus behavioural IndexedSelect check",
+    "Thousands (quick) / ~90k (thorough) SQLite-accepted CREATE TABLE/INDEX programs; every table sqlittle accepts is compared on columns, WITHOUT ROWID, rowid alias, pk columns and every listed index (name, columns, desc, collation). Held on the programs generated for the seed.",
+    "SQLite 3.40.1 pragmas are the reference; omitted indexes / rejected tables are allowed by the property and only counted", "DESIGN.md 3 C10")
